@@ -5,7 +5,9 @@ kinds of cases
   src  : {id, kind, src}                           -> evaluate, report outcome and the line lengths of the text
   grid : {id, kind, recv, vecs:[[arg class]..], allocating:[names], huge:[arg classes], intrep}
          -> discover every function-valued property of the receiver kind at run time and call it with every
-            argument vector (fresh context per call); one result per call
+            argument vector (fresh context per call); one result per call.  Argument classes are rendered by arg_src
+            (C04.tla CoreClasses / MirrorClasses / KindClasses / <route>_<value>); "only" + "form" = one call observed again;
+            "again" (any kind) = observed again after a watchdog expiry, long watchdog only
   fam  : {id, kind, fam:{kind: long|esc|stmt, name, src, ds, n, digit, embed}}   (a case of C04.tla FamCases)
          -> long: render the literal (LONG_FORMS / LONG_EMBEDS), evaluate; esc / stmt: evaluate fam.src;
             report outcome, line lengths and the kind of the returned value
@@ -101,6 +103,7 @@ LONG_EMBEDS = {"expr": "%s", "neg": "-%s", "arg": "Math.abs(%s)", "key": "({%s: 
 _names = None
 _discovered = {}
 _rlimit_done = False
+_again = False
 
 
 def _limit_memory():
@@ -185,6 +188,8 @@ def run_patient(api, fn, cap=300_000):
     """api.run, and once more with a long watchdog if only the wall clock fired (machine under load)"""
     # (the harness multiplies wall by VERIF_WALL_SCALE, default 6: 18 s, then 120 s; a front-end loop that
     # executes no hooked step is only seen by this watchdog, so it must not be so long that a hang stalls the run)
+    if _again:                                     # a case observed again after a watchdog expiry: the long watchdog only
+        return api.run(fn, wall=20.0, cap=cap)
     out = api.run(fn, wall=3.0, cap=cap)
     if out["o"] == "hang" and out.get("why") == "wall clock":
         out = api.run(fn, wall=20.0, cap=cap)
@@ -267,7 +272,9 @@ def driver(case, api):
 
 
 def driver1(case, api):
+    global _again
     _limit_memory()
+    _again = bool(case.get("again"))
     kind = case["kind"]
     if kind == "cls":
         src = "".join(CONC[case["conc"]][c] for c in case["cls"])
